@@ -8,6 +8,16 @@ HERE = os.path.dirname(os.path.abspath(__file__))
 VERIF = os.path.abspath(os.path.join(HERE, ".."))
 
 CLAIMED = {
+    "C03": dict(
+        text="Coq theorems about the REGENERATED text of net_utils::is_global_*: for all 2^32 IPv4 addresses global iff outside the "
+             "IANA special-purpose ranges; for all 2^128 IPv6 addresses the named special classes (incl. every special IPv4 address "
+             "embedded as ::ffff:a.b.c.d) are never global and global unicast is never refused; the connect decision connects to the "
+             "very address checked, first usable address of an answer, refusal independent of answer order; tied by the translator, an "
+             "EXHAUSTIVE run of the real is_global_ip over all 2^32 IPv4 addresses, IPv6 structural sweeps and real "
+             "TcpForwarder::connect runs against a loopback canary",
+        note="trusted: Coq kernel, translator (expression translation of three const fns, structural flags of connect()), Model/IpStd.v "
+             "(std predicate ranges), Model/ConnectPolicy.v, extraction + driver, harness doors; resolver and connect(2) are environment",
+        design="DESIGN.md 5 C03"),
     "C06": dict(
         text="Coq theorems over the Gallina model of http_udp_codec.rs: for every record sequence and EVERY segmentation the "
              "decoder delivers exactly the PROTOCOL.md 6.3 datagrams of the accepted records and skips rejected ones whole "
